@@ -152,22 +152,207 @@ theorem calcLine_fixpoint (cur : String) (c : ℕ) (rates : List XRate) (r : Rul
   rw [lineDiscounts_round r c (max p.exp it.sub) _ l.discounts _ hce hd]
   rw [lineCharges_round r c (max p.exp it.sub) l.qty _ l.charges _ hce hc]
 
+/-! ### lines with a breakdown -/
+
+def maxExp (l : List LineAdj) : ℕ := l.foldr (fun d m => max d.amount.exp m) 0
+
+theorem le_maxExp (l : List LineAdj) (d : LineAdj) (h : d ∈ l) : d.amount.exp ≤ maxExp l := by
+  induction l with
+  | nil => simp at h
+  | cons x xs ih =>
+    simp only [maxExp, List.foldr_cons]
+    simp only [List.mem_cons] at h
+    rcases h with rfl | h
+    · omega
+    · have := ih h
+      simp only [maxExp] at this
+      omega
+
+theorem map_roundAdj_noop (e : ℕ) (l : List LineAdj) (h : ∀ d ∈ l, d.amount.exp ≤ e) :
+    l.map (roundAdj exactOps e) = l := by
+  induction l with
+  | nil => rfl
+  | cons x xs ih =>
+    simp only [List.map_cons]
+    rw [ih (fun d hd => h d (by simp [hd]))]
+    congr 1
+    simp only [roundAdj]
+    rw [down_noop _ e (h x (by simp))]
+
+/-- the discounts computed once are reproduced when they are computed again (no rounding in between) -/
+theorem lineDiscounts_idem (r : Rule) (c : ℕ) (sum : Amount) (ds : List LineAdj) (total : Amount) :
+    lineDiscounts exactOps r c sum (lineDiscounts exactOps r c sum ds total).1 total =
+      lineDiscounts exactOps r c sum ds total := by
+  set out := (lineDiscounts exactOps r c sum ds total).1 with hout
+  set e := max c (max (maxExp ds) (maxExp out)) with he
+  have h1 : out.map (roundAdj exactOps e) = out :=
+    map_roundAdj_noop e out (fun d hd => by have := le_maxExp out d hd; omega)
+  have h2 := lineDiscounts_round r c e sum ds total (by omega)
+    (fun d hd => Or.inr (by have := le_maxExp ds d hd; omega))
+  rw [← hout, h1] at h2
+  exact h2
+
+theorem lineCharges_idem (r : Rule) (c : ℕ) (qty sum : Amount) (ds : List LineAdj) (total : Amount) :
+    lineCharges exactOps r c qty sum (lineCharges exactOps r c qty sum ds total).1 total =
+      lineCharges exactOps r c qty sum ds total := by
+  set out := (lineCharges exactOps r c qty sum ds total).1 with hout
+  set e := max c (max (maxExp ds) (maxExp out)) with he
+  have h1 : out.map (roundAdj exactOps e) = out :=
+    map_roundAdj_noop e out (fun d hd => by have := le_maxExp out d hd; omega)
+  have h2 := lineCharges_round r c e qty sum ds total (by omega)
+    (fun d hd => Or.inr (Or.inr (by have := le_maxExp ds d hd; omega)))
+  rw [← hout, h1] at h2
+  exact h2
+
+/-- a sub-line priced in the document currency -/
+def SubLineStable (cur : String) (sl : SubLine) : Prop :=
+  ∃ it p, sl.item = some it ∧ it.price = some p ∧ (it.cur == "" || it.cur == cur) = true
+
+theorem calcSubLine_fix (cur : String) (c : ℕ) (rates : List XRate) (r : Rule) (sl sl1 : SubLine) (e : ℕ)
+    (hs : SubLineStable cur sl) (h1 : calcSubLine exactOps cur c rates r sl = .ok sl1) :
+    calcSubLine exactOps cur c rates r (roundSubLine exactOps e sl1) = .ok sl1 ∧ SubLineStable cur sl1 := by
+  obtain ⟨it, p, hi, hp, hcur⟩ := hs
+  unfold calcSubLine at h1
+  simp only [hi, hp, itemPrice_same cur c rates it p hcur, Option.getD_some] at h1
+  injection h1 with h1
+  subst h1
+  have hcur' : (({ it with price := some (up p it.sub) } : Item).cur == "" ||
+      ({ it with price := some (up p it.sub) } : Item).cur == cur) = true := hcur
+  refine ⟨?_, ⟨_, _, rfl, rfl, hcur'⟩⟩
+  unfold roundSubLine calcSubLine
+  simp only [itemPrice_same cur c rates _ (up p it.sub) hcur', Option.getD_some, up_up]
+  rw [lineDiscounts_idem, lineCharges_idem]
+
+theorem calcSubLines_fix (cur : String) (c : ℕ) (rates : List XRate) (r : Rule) (sls sls1 : List SubLine) (e : ℕ)
+    (hs : ∀ sl ∈ sls, SubLineStable cur sl) (h1 : calcSubLines exactOps cur c rates r sls = .ok sls1) :
+    calcSubLines exactOps cur c rates r (sls1.map (roundSubLine exactOps e)) = .ok sls1 := by
+  induction sls generalizing sls1 with
+  | nil =>
+    simp only [calcSubLines] at h1
+    injection h1 with h1
+    subst h1
+    rfl
+  | cons sl sls ih =>
+    simp only [calcSubLines] at h1
+    cases ha : calcSubLine exactOps cur c rates r sl with
+    | error err => simp [ha] at h1
+    | ok sl1 =>
+      cases hb : calcSubLines exactOps cur c rates r sls with
+      | error err => simp [ha, hb] at h1
+      | ok rest =>
+        simp only [ha, hb] at h1
+        injection h1 with h1
+        subst h1
+        simp only [List.map_cons, calcSubLines]
+        rw [(calcSubLine_fix cur c rates r sl sl1 e (hs sl (by simp)) ha).1,
+          ih rest (fun x hx => hs x (by simp [hx])) hb]
+
+
+
+theorem calcSubLine_total (cur : String) (c : ℕ) (rates : List XRate) (r : Rule) (sl sl1 : SubLine)
+    (hs : SubLineStable cur sl) (h1 : calcSubLine exactOps cur c rates r sl = .ok sl1) : sl1.total.isSome := by
+  obtain ⟨it, p, hi, hp, hcur⟩ := hs
+  unfold calcSubLine at h1
+  simp only [hi, hp, itemPrice_same cur c rates it p hcur, Option.getD_some] at h1
+  injection h1 with h1
+  subst h1
+  rfl
+
+theorem calcSubLines_totals_ne (cur : String) (c : ℕ) (rates : List XRate) (r : Rule) (sls bd : List SubLine)
+    (hs : ∀ sl ∈ sls, SubLineStable cur sl) (hne : sls ≠ []) (h1 : calcSubLines exactOps cur c rates r sls = .ok bd) :
+    bd ≠ [] ∧ (bd.filterMap (·.total)) ≠ [] := by
+  cases sls with
+  | nil => exact absurd rfl hne
+  | cons sl sls =>
+    simp only [calcSubLines] at h1
+    cases ha : calcSubLine exactOps cur c rates r sl with
+    | error err => simp [ha] at h1
+    | ok sl1 =>
+      cases hb : calcSubLines exactOps cur c rates r sls with
+      | error err => simp [ha, hb] at h1
+      | ok rest =>
+        simp only [ha, hb] at h1
+        injection h1 with h1
+        subst h1
+        have ht := calcSubLine_total cur c rates r sl sl1 (hs sl (by simp)) ha
+        refine ⟨by simp, ?_⟩
+        cases htt : sl1.total with
+        | none => rw [htt] at ht; cases ht
+        | some t => simp [List.filterMap_cons, htt]
+
+theorem DiscountStable.mono {e e' : ℕ} {d : LineAdj} (h : DiscountStable e d) (he : e ≤ e') : DiscountStable e' d := by
+  rcases h with h | h
+  · exact Or.inl h
+  · exact Or.inr (by omega)
+
+theorem ChargeStable.mono {e e' : ℕ} {d : LineAdj} (h : ChargeStable e d) (he : e ≤ e') : ChargeStable e' d := by
+  rcases h with h | h | h
+  · exact Or.inl h
+  · exact Or.inr (Or.inl h)
+  · exact Or.inr (Or.inr (by omega))
+
+/-- **Line fixpoint with a breakdown.**  A line whose price comes from sub-lines priced in the document
+currency, and whose own fixed discount/charge amounts have at most the currency's decimals, is reproduced
+exactly when its calculated and presented form (sub-lines included) is calculated again. -/
+theorem calcLine_fixpoint_breakdown (cur : String) (c : ℕ) (rates : List XRate) (r : Rule) (l l1 : Line) (it0 : Item)
+    (hi : l.item = some it0) (hne : l.breakdown ≠ []) (hsl : ∀ sl ∈ l.breakdown, SubLineStable cur sl)
+    (hd : ∀ d ∈ l.discounts, DiscountStable c d) (hc : ∀ d ∈ l.charges, ChargeStable c d)
+    (h1 : calcLine exactOps cur c rates r l = .ok l1) :
+    calcLine exactOps cur c rates r (roundLine exactOps l1) = .ok l1 := by
+  unfold calcLine at h1
+  simp only [hi] at h1
+  cases hbd : calcSubLines exactOps cur c rates r l.breakdown with
+  | error err => simp [hbd] at h1
+  | ok bd =>
+    obtain ⟨hbdne, htotne⟩ := calcSubLines_totals_ne cur c rates r l.breakdown bd hsl hne hbd
+    have he1 : l.breakdown.isEmpty = false := by cases hl : l.breakdown with | nil => exact absurd hl hne | cons _ _ => rfl
+    have he2 : (bd.filterMap (·.total)).isEmpty = false := by
+      cases hl : bd.filterMap (·.total) with | nil => exact absurd hl htotne | cons _ _ => rfl
+    have he3 : bd.isEmpty = false := by cases hl : bd with | nil => exact absurd hl hbdne | cons _ _ => rfl
+    simp only [hbd, he1, he2, Bool.or_self, Bool.false_eq_true, if_false] at h1
+    -- the item price taken from the sub-lines
+    set p0 := exactOps.rescale ((bd.filterMap (·.total)).foldl (accum exactOps) ⟨0, c⟩) (subLinePrecision bd) with hp0
+    have hsame : ((({ it0 with cur := cur, sub := c, price := some p0, alts := [] } : Item).cur == "") ||
+        (({ it0 with cur := cur, sub := c, price := some p0, alts := [] } : Item).cur == cur)) = true := by simp
+    rw [itemPrice_same cur c rates _ p0 hsame] at h1
+    simp only [Option.getD_some] at h1
+    injection h1 with h1
+    subst h1
+    -- the second calculation
+    have hbd2 := calcSubLines_fix cur c rates r l.breakdown bd (up p0 c).exp hsl hbd
+    unfold roundLine
+    simp only
+    unfold calcLine
+    simp only [hbd2, List.isEmpty_map, he3, he2, Bool.or_self, Bool.false_eq_true, if_false]
+    have hsame2 : ((({ it0 with cur := cur, sub := c, price := some p0, alts := [] } : Item).cur == "") ||
+        (({ it0 with cur := cur, sub := c, price := some p0, alts := [] } : Item).cur == cur)) = true := hsame
+    rw [← hp0, itemPrice_same cur c rates _ p0 hsame2]
+    simp only [Option.getD_some]
+    have hce : c ≤ (up p0 c).exp := by rw [up_exp]; omega
+    rw [lineDiscounts_round r c (up p0 c).exp _ l.discounts _ hce (fun d hd' => (hd d hd').mono hce)]
+    rw [lineCharges_round r c (up p0 c).exp l.qty _ l.charges _ hce (fun d hd' => (hc d hd').mono hce)]
+
 /-! ### the whole document -/
 
 /-- a line the second calculation reproduces: no breakdown, and either no item at all or a priced item in
 the document currency whose fixed discount/charge amounts are not finer than the line is presented with -/
 def LineStable (cur : String) (c : ℕ) (l : Line) : Prop :=
-  l.breakdown = [] ∧
-  match l.item with
-  | none => True
-  | some it => ∃ p, it.price = some p ∧ (it.cur == "" || it.cur == cur) = true ∧ c ≤ it.sub ∧
-      (∀ d ∈ l.discounts, DiscountStable (max p.exp it.sub) d) ∧
-      (∀ d ∈ l.charges, ChargeStable (max p.exp it.sub) d)
+  (l.breakdown = [] ∧
+    match l.item with
+    | none => True
+    | some it => ∃ p, it.price = some p ∧ (it.cur == "" || it.cur == cur) = true ∧ c ≤ it.sub ∧
+        (∀ d ∈ l.discounts, DiscountStable (max p.exp it.sub) d) ∧
+        (∀ d ∈ l.charges, ChargeStable (max p.exp it.sub) d)) ∨
+  -- or: priced by a breakdown of sub-lines in the document currency, own fixed amounts at currency precision
+  (l.breakdown ≠ [] ∧ (∃ it0, l.item = some it0) ∧ (∀ sl ∈ l.breakdown, SubLineStable cur sl) ∧
+    (∀ d ∈ l.discounts, DiscountStable c d) ∧ (∀ d ∈ l.charges, ChargeStable c d))
 
 theorem calcLine_fix (cur : String) (c : ℕ) (rates : List XRate) (r : Rule) (l l1 : Line)
     (hs : LineStable cur c l) (h1 : calcLine exactOps cur c rates r l = .ok l1) :
     calcLine exactOps cur c rates r (roundLine exactOps l1) = .ok l1 := by
-  obtain ⟨hb, hi⟩ := hs
+  rcases hs with ⟨hb, hi⟩ | ⟨hne, ⟨it0, hi0⟩, hsl, hd, hc⟩
+  swap
+  · exact calcLine_fixpoint_breakdown cur c rates r l l1 it0 hi0 hne hsl hd hc h1
   cases hit : l.item with
   | none =>
     have : l1 = l := by
@@ -387,5 +572,6 @@ theorem calculate_fixpoint (d : Doc) (out : Out) (t : Totals) (hs : DocStable d)
           apply List.map_congr_left
           intro x _
           exact calcDue_idem d.c _ x
+
 
 end GoblVerif.Calc
